@@ -3,6 +3,7 @@ package wire
 import (
 	"bufio"
 	"bytes"
+	"errors"
 	"io"
 
 	"github.com/gobwas/ws"
@@ -59,6 +60,9 @@ type ReadCfg struct {
 	Bufio int
 	// ZeroBuf: the application now and then calls Read with an empty buffer.
 	ZeroBuf bool
+	// Retry: the application retries a Read that failed with a temporary
+	// net.Error (the transport is told where to fail: Pipe.Transient).
+	Retry bool
 	// OnContRead: the OnContinuation handler reads part of the fragment's
 	// body itself (units are then always read to their end).
 	OnContRead bool
@@ -121,6 +125,8 @@ type Outcome struct {
 	ZeroBuf  bool   // the application now and then calls Read with an empty buffer
 	zeroSalt uint64
 	nreads   int
+	Retry    bool // the application retries a Read that failed with a temporary net.Error
+	retried  bool
 }
 
 var bufSizes = [...]int{4096, 1, 2, 3, 5, 8, 16, 64, 512, 70000}
@@ -132,7 +138,7 @@ const maxZeroReads = 5000
 // RunApp drives one read-side application over the pipe until the stream ends
 // or an API call fails.
 func RunApp(r *eng.Run, p *Pipe, cfg ReadCfg) *Outcome {
-	o := &Outcome{ZeroBuf: cfg.ZeroBuf}
+	o := &Outcome{ZeroBuf: cfg.ZeroBuf, Retry: cfg.Retry}
 	switch cfg.App {
 	case AppReader:
 		appReader(r, p, cfg, o)
@@ -196,6 +202,13 @@ func readUnit(r *eng.Run, p *Pipe, rd io.Reader, discard func() error, rec *Rec,
 		rec.Data = append(rec.Data, buf[:n]...)
 		if err == io.EOF {
 			return true
+		}
+		if err != nil && o.Retry && !o.retried && errors.Is(err, ErrInjectedNet) {
+			// A temporary transport error (missed read deadline): the
+			// application extends the deadline and reads on.
+			o.retried = true
+			r.Probe("read_retried_after_temporary_error")
+			continue
 		}
 		if err != nil {
 			o.Open, o.Err, o.ErrAt = rec, err, "Read"
